@@ -31,27 +31,39 @@ pub struct Container {
     packs: Vec<OnceLock<ContentPack>>,
 }
 
+/// Parse the pack header mirrored in the last 64 bytes of the reader.
+fn parse_tail_pack_header(reader: &Reader) -> Result<PackHeader> {
+    let mut buffer_reader = [0u8; 64];
+    reader
+        .create_stream((reader.size() - Size::new(64)).into(), Size::new(64), false)?
+        .read_exact(&mut buffer_reader)?;
+    buffer_reader.reverse();
+    let end_reader: Reader = buffer_reader.into();
+    end_reader.parse_block_at::<PackHeader>(Offset::zero())
+}
+
 /// Open the reader as a container pack.
 /// Blindly opening from a Reader is a bit complex as:
 /// - We don't know what we will open
 /// - Pack may be located at end of the reader so we have to check for footer
 pub fn open_as_container_pack(reader: Reader) -> Result<ContainerPack> {
     // Check at beginning
-    // First try to check without Check as we want a nice message to the user if version has changed.
-    reader.parse_block_unchecked_at::<PackHeader>(Offset::zero())?;
     let (pack_header, offset) = match reader.parse_block_at::<PackHeader>(Offset::zero()) {
         Ok(pack_header) => (pack_header, Offset::zero()),
         Err(_) => {
             //Check at end
-            let mut buffer_reader = [0u8; 64];
-            reader
-                .create_stream((reader.size() - Size::new(64)).into(), Size::new(64), false)?
-                .read_exact(&mut buffer_reader)?;
-            buffer_reader.reverse();
-            let end_reader: Reader = buffer_reader.into();
-            let pack_header = end_reader.parse_block_at::<PackHeader>(Offset::zero())?;
-            let origin = reader.size() - pack_header.file_size;
-            (pack_header, origin.into())
+            match parse_tail_pack_header(&reader) {
+                Ok(pack_header) => {
+                    let origin = reader.size() - pack_header.file_size;
+                    (pack_header, origin.into())
+                }
+                Err(e) => {
+                    // No pack at the beginning nor at the end.
+                    // Try to parse the beginning without Check as we want a nice message to the user if version has changed.
+                    reader.parse_block_unchecked_at::<PackHeader>(Offset::zero())?;
+                    return Err(e);
+                }
+            }
         }
     };
 
